@@ -63,6 +63,52 @@ def _expr(b, defs, op, depth=0, upnames=None):
     return "?"
 
 
+def _cmp_expr(F, b, defs, flag, depth=0):
+    """the expression `vector_index` is compared with to obtain the flag operand (None = not recognised)"""
+    cmp_e = None
+    if flag.get("k") not in ("copy", "move") or depth > 2:
+        return None
+    for d in defs.of(flag["place"]["l"]):
+        if d[0] != "call":
+            rv = d[4]
+            if rv["k"] == "use" and rv["op"].get("k") in ("copy", "move") and not rv["op"]["place"]["p"]:
+                cmp_e = _cmp_expr(F, b, defs, rv["op"], depth) or cmp_e
+            continue
+        nm = callee(d[2])[2]
+        if nm == "ne" and len(d[2]["args"]) == 2:
+            es = [_expr(b, defs, a) for a in d[2]["args"]]
+            cand = [e for e in es if e.startswith("agg(")]
+            if cand:
+                cmp_e = cand[0][4:-1]
+        elif nm == "is_none_or" and len(d[2]["args"]) == 2:
+            cl = d[2]["args"][1]
+            cty = b.opty(cl) or {}
+            k = str(cty.get("k", ""))
+            if k.startswith("closure:"):
+                cb = F.body(k[len("closure:"):])
+                if cb is not None:
+                    cd = Defs(cb)
+                    ups = {i: u.get("name") for i, u in enumerate(cb.d.get("upvars") or [])}
+                    for bj, sj, st in cb.stmts():
+                        if st["place"]["l"] == 0 and st["rv"]["k"] == "binop" and st["rv"]["op"] == "Ne":
+                            es = [_expr(cb, cd, st["rv"]["a"], 0, ups), _expr(cb, cd, st["rv"]["b"], 0, ups)]
+                            arg = cb.lname(2) or "ind"
+                            es = [e for e in es if e != arg and e != "v2"]
+                            if es:
+                                cmp_e = es[0]
+        else:
+            # a named predicate of the repository (`is_scalar_axis(vector_index, axis)`): the comparison is inside; the expression
+            # compared is the call's argument in the position of the helper's parameter that the helper compares with
+            hb = F.callee_body(d[2])
+            if hb is not None and not hb.is_closure() and hb.path.startswith("feos_dft::") and len(hb.blocks) <= 20 \
+                    and (hb.lty(0) or {}).get("s") == "bool" and hb["arg_count"] == len(d[2]["args"]):
+                inner = _cmp_expr(F, hb, Defs(hb), {"k": "copy", "place": {"l": 0, "p": []}}, depth + 1)
+                for i in range(1, hb["arg_count"] + 1):
+                    if inner is not None and inner == hb.lname(i):
+                        cmp_e = _expr(b, defs, d[2]["args"][i - 1])
+    return cmp_e
+
+
 def run(F):
     r = RuleResult("R33", "AXIS-PAIRING: a 1-D transform's vector-component flag is tested for the axis it runs along")
     n = 0
@@ -100,35 +146,7 @@ def run(F):
                     rv = st["rv"]
                     if rv["k"] == "agg" and str(rv["kind"].get("adt", "")).endswith("ndarray::Axis"):
                         axes.add(_expr(b, defs, rv["ops"][0]))
-            # flag expression
-            flag = t["args"][3]
-            cmp_e = None
-            if flag.get("k") in ("copy", "move"):
-                for d in defs.of(flag["place"]["l"]):
-                    if d[0] != "call":
-                        continue
-                    nm = callee(d[2])[2]
-                    if nm == "ne" and len(d[2]["args"]) == 2:
-                        es = [_expr(b, defs, a) for a in d[2]["args"]]
-                        cand = [e for e in es if e.startswith("agg(")]
-                        if cand:
-                            cmp_e = cand[0][4:-1]
-                    elif nm == "is_none_or" and len(d[2]["args"]) == 2:
-                        cl = d[2]["args"][1]
-                        cty = b.opty(cl) or {}
-                        k = str(cty.get("k", ""))
-                        if k.startswith("closure:"):
-                            cb = F.body(k[len("closure:"):])
-                            if cb is not None:
-                                cd = Defs(cb)
-                                ups = {i: u.get("name") for i, u in enumerate(cb.d.get("upvars") or [])}
-                                for bj, sj, st in cb.stmts():
-                                    if st["place"]["l"] == 0 and st["rv"]["k"] == "binop" and st["rv"]["op"] == "Ne":
-                                        es = [_expr(cb, cd, st["rv"]["a"], 0, ups), _expr(cb, cd, st["rv"]["b"], 0, ups)]
-                                        arg = cb.lname(2) or "ind"
-                                        es = [e for e in es if e != arg and e != "v2"]
-                                        if es:
-                                            cmp_e = es[0]
+            cmp_e = _cmp_expr(F, b, defs, t["args"][3])
             fn = b.path.split("::")[-1]
             iid = "axis|%s|%s" % (fn, "first-axis" if inner is not None and region == set(range(len(b.blocks))) else "cartesian-axes")
             if cmp_e is not None and cmp_e in axes:
